@@ -592,6 +592,7 @@ def run(prop, tier, replay=None):
             rep.violation({"kind": "buffer-ops", "ops": s["ops"], "observed": a, "expected": b,
                            "what": "_Buffer and the Lean Buf model disagree on an operation sequence"}, no_input=True)
 
+    check_utf8(rep, rng, tier)
     if prop == "C02":
         check_vectors(rep)
     if prop == "C16":
@@ -610,6 +611,58 @@ def run(prop, tier, replay=None):
         "struct values are compared positionally in ascending field id",
     ]
     return rep.finish()
+
+
+def check_utf8(rep, rng, tier):
+    """`utf8Valid` (the model's condition for a byte string to be a text) against the decoder the implementation uses,
+    `bytes.decode("utf-8")`: every byte string of length 1 and 2, the boundary bytes of every 3- and 4-byte form, and
+    mutations of the encodings of random texts"""
+    items = [[b] for b in range(256)]
+    items += [[a, b] for a in range(256) for b in range(256)] if tier == "thorough" else \
+        [[a, b] for a in (0x00, 0x7F, 0x80, 0xBF, 0xC0, 0xC1, 0xC2, 0xDF, 0xE0, 0xED, 0xF0, 0xF4, 0xF5, 0xFF) for b in range(256)]
+    lead3 = (0xE0, 0xE1, 0xEC, 0xED, 0xEE, 0xEF)
+    edge = (0x00, 0x7F, 0x80, 0x8F, 0x90, 0x9F, 0xA0, 0xBF, 0xC0, 0xFF)
+    items += [[a, b, c] for a in lead3 for b in edge for c in edge]
+    items += [[a, b, c, d] for a in (0xF0, 0xF1, 0xF3, 0xF4, 0xF5) for b in edge for c in (0x7F, 0x80, 0xBF, 0xC0) for d in (0x7F, 0x80, 0xBF, 0xC0)]
+    for _ in range(300 if tier == "quick" else 5000):
+        txt = "".join(chr(rng.randint(0, 127)) if rng.random() < 0.5 else rng.choice(gen.WIDE_CHARS) for _ in range(rng.randint(0, 6)))
+        bs = list(txt.encode("utf-8"))
+        items.append(list(bs))
+        if bs:
+            k = rng.randrange(len(bs))
+            m = list(bs)
+            op = rng.choice(["flip", "drop", "dup", "cut"])
+            if op == "flip":
+                m[k] = rng.getrandbits(8)
+            elif op == "drop":
+                del m[k]
+            elif op == "dup":
+                m.insert(k, m[k])
+            else:
+                m = m[:k]
+            items.append(m)
+    res = []
+    for i in range(0, len(items), 4000):
+        out = run_driver_parallel([{"op": "utf8", "items": items[i:i + 4000]}])[0]
+        if "valid" not in out:
+            rep.violation({"kind": "harness", "observed": out}, no_input=True)
+            return
+        res += out["valid"]
+    bad = 0
+    for bs, mv in zip(items, res):
+        rep.cov["evaluations"] += 1
+        try:
+            bytes(bs).decode("utf-8")
+            iv = True
+        except UnicodeDecodeError:
+            iv = False
+        if iv != mv:
+            bad += 1
+            if bad <= 3:
+                rep.violation({"kind": "utf8-model", "bytes": bs, "python_accepts": iv, "model_accepts": mv,
+                               "what": "the model's condition for a byte string to be a text differs from Python's strict "
+                                       "UTF-8 decoder (theorems about strings no longer describe the decoder)"}, no_input=True)
+    rep.cov["utf8_byte_strings_compared"] = len(items)
 
 
 def static_nodes(d, name):
